@@ -168,20 +168,56 @@ func (a *ltAnalysis) noteWriteTarget(e ast.Expr) {
 	}
 }
 
-func (a *ltAnalysis) mentionsGuarded(e ast.Node) bool {
-	found := false
-	ast.Inspect(e, func(n ast.Node) bool {
-		if x, ok := n.(ast.Expr); ok {
-			if f := a.fieldOf(x); f != "" && a.guarded[f] {
-				found = true
+// aliasSource: does evaluating e yield a pointer/reference into the guarded data?  True for an
+// expression rooted at a guarded field or at a tainted local, for a method call on such an
+// expression (c.lruList.Back()), for a call receiving &field (heap.Pop(&spq.pq)) and for append
+// of such values.  len/cap/make and other calls yield fresh values.
+func (a *ltAnalysis) aliasSource(e ast.Expr) bool {
+	for {
+		switch x := e.(type) {
+		case *ast.ParenExpr:
+			e = x.X
+			continue
+		case *ast.TypeAssertExpr:
+			e = x.X
+			continue
+		case *ast.StarExpr:
+			e = x.X
+			continue
+		case *ast.UnaryExpr:
+			e = x.X
+			continue
+		}
+		break
+	}
+	if c, ok := e.(*ast.CallExpr); ok {
+		if id, ok := c.Fun.(*ast.Ident); ok {
+			if id.Name != "append" {
+				return false // len, cap, make, new, conversions, local functions
+			}
+			for _, arg := range c.Args {
+				if a.aliasSource(arg) {
+					return true
+				}
+			}
+			return false
+		}
+		if sel, ok := c.Fun.(*ast.SelectorExpr); ok {
+			if f, t, _ := a.root(sel.X); (f != "" && a.guarded[f]) || t {
+				return true
 			}
 		}
-		if id, ok := n.(*ast.Ident); ok && a.tainted[id.Name] {
-			found = true
+		for _, arg := range c.Args {
+			if u, ok := arg.(*ast.UnaryExpr); ok && u.Op == token.AND {
+				if f, _, _ := a.root(u.X); f != "" && a.guarded[f] {
+					return true
+				}
+			}
 		}
-		return !found
-	})
-	return found
+		return false
+	}
+	f, t, _ := a.root(e)
+	return (f != "" && a.guarded[f]) || t
 }
 
 // setMode starts a new lock region (every Lock/Unlock call is a region boundary).
@@ -228,7 +264,7 @@ func (a *ltAnalysis) walk(n ast.Node) {
 			// taint locals defined from guarded data
 			rhsGuarded := false
 			for _, r := range x.Rhs {
-				if a.mentionsGuarded(r) {
+				if a.aliasSource(r) {
 					rhsGuarded = true
 				}
 			}
@@ -240,7 +276,7 @@ func (a *ltAnalysis) walk(n ast.Node) {
 				}
 			}
 		case *ast.RangeStmt:
-			if a.mentionsGuarded(x.X) {
+			if a.aliasSource(x.X) {
 				for _, l := range []ast.Expr{x.Key, x.Value} {
 					if id, ok := l.(*ast.Ident); ok && id.Name != "_" {
 						a.tainted[id.Name] = true
@@ -272,8 +308,27 @@ func (a *ltAnalysis) walk(n ast.Node) {
 				a.note(1)
 			}
 		}
-		if id, ok := n.(*ast.Ident); ok && a.tainted[id.Name] {
-			a.note(1) // reading through a pointer obtained from a guarded field
+		// reading through a pointer obtained from a guarded field: elem.Value, item.index, p[i], *p
+		var inner ast.Expr
+		switch x := n.(type) {
+		case *ast.SelectorExpr:
+			inner = x.X
+		case *ast.IndexExpr:
+			inner = x.X
+		case *ast.StarExpr:
+			inner = x.X
+		case *ast.SliceExpr:
+			inner = x.X
+		}
+		for inner != nil {
+			if p, ok := inner.(*ast.ParenExpr); ok {
+				inner = p.X
+				continue
+			}
+			if id, ok := inner.(*ast.Ident); ok && a.tainted[id.Name] {
+				a.note(1)
+			}
+			break
 		}
 		return true
 	})
